@@ -10,6 +10,7 @@ import Regatta.Driver.RestoreMode
 import Regatta.Driver.CrashMode
 import Regatta.Driver.ApiMode
 import Regatta.Driver.AuthMode
+import Regatta.Driver.ReplMode
 /-
   Model driver: one operation per input line, one answer per output line.
   usage: driver <mode> < ops.txt > model.txt
@@ -37,6 +38,7 @@ def main (args : List String) : IO UInt32 := do
   | ["queue"] => loop stdin stdout Driver.QueueMode.step ({} : Driver.QueueMode.St)
   | ["heap"] => loop stdin stdout Driver.QueueMode.hstep ([] : Queue.Heap)
   | ["wire"] => loop stdin stdout Driver.WireMode.step ()
+  | ["repl"] => loop stdin stdout Driver.ReplMode.step ({} : Driver.ReplMode.St)
   | ["auth"] => loop stdin stdout Driver.AuthMode.step ({} : Driver.AuthMode.St)
   | ["api"] => loop stdin stdout Driver.ApiMode.step ({} : Driver.ApiMode.St)
   | ["crash"] => loop stdin stdout Driver.CrashMode.step ({} : Driver.CrashMode.St)
